@@ -62,6 +62,15 @@ def arith(what):
             [1, 1] + h
         elif what == "negative":
             h * (-1)
+        elif what in ("add_negative", "iadd_negative", "sum_negative"):
+            with config.enable_free_arithmetics():       # a nested block of this execution's own: left again before the addition
+                neg = (h + h) * (-1)
+            if what == "add_negative":
+                h + neg
+            elif what == "iadd_negative":
+                h += neg
+            else:
+                sum([h, neg])
         elif what == "sub_below_zero":
             with warnings.catch_warnings():
                 warnings.simplefilter("ignore")
